@@ -25,6 +25,7 @@ import Emboss.Lemmas.FmtCommentOK
 import Emboss.Lemmas.FmtBlank
 import Emboss.Lemmas.FmtRetokCells
 import Emboss.Lemmas.FmtRetokEx
+import Emboss.Lemmas.FmtRetokCols
 namespace Emboss.Fmt
 open Emboss.Generated.FmtTable
 
@@ -398,6 +399,52 @@ theorem C11_retokenize_partial (iw : Nat) (hiw : 0 < iw) (c d i a : List Row) (t
   obtain ⟨text, toks, h1, h2, h3⟩ := tokenize_renderRows iw hiw rows hr E hE
   refine ⟨text, toks, ?_, h2, h3⟩
   rw [hModule_eq, ← hrows, h1]; rfl
+
+/-- **…with the hypothesis moved in front of the global passes**: `_intersperse`,
+`_indent_blanks_and_comments`, `_add_blank_rows_on_dedent` and
+`_strip_empty_leading_trailing_comment_lines` only add rows without columns and change
+indentation (`moduleRows_columns`), so it is enough that the rows *the module's parts
+deliver* (comment, documentation, import, attribute rows, rows of the type definitions)
+have fewer than two columns and tokenize to the leaves `lv` assigns to their columns. -/
+theorem C11_retokenize_module_partial (iw : Nat) (hiw : 0 < iw) (c d i a : List Row) (ty : List (List Row))
+    (lv : List Str → List Leaf) (hnil : lv [] = [])
+    (hin : ∀ r ∈ c ++ d ++ i ++ a ++ ty.flatten, r.columns.length < 2 ∧ LineToks (rowText r) (lv r.columns))
+    (E : List Leaf)
+    (hE : expectLeaves iw 0 [] ((moduleRows c d i a ty).map (fun r => (r.indent, lv r.columns))) = some E) :
+    ∃ text toks, Handler.run iw .module [.rows c, .rows d, .rows i, .rows a, .sections ty] =
+        some (.str text) ∧
+      tokenize tokTable.pats text = .ok toks ∧ toks.map leafOf = E :=
+  tokenize_moduleRows iw hiw c d i a ty lv hnil hin E hE
+
+/-- **The header row `_columnize` builds re-tokenizes to its cells' tokens, partial.**  `b`
+one of the blocks handed to `_columnize(blocks, indent_width, indent_columns)`; every cell
+of its header is empty (without leaves) or tokenizes to its leaves; a comment /
+documentation token only in the last non-empty cell; the first cell not empty.  Then the
+block is rendered as `prefix ++ [hdr] ++ body` where `hdr` has a single column, the header's
+name and indentation, and its content tokenizes to the concatenation of the cells' leaves:
+the column widths (`colWidth_ge`: a column is at least as wide as each of its cells, in
+both `indent_columns` modes) leave at least one blank after every non-empty cell, and the
+`ljust` loop is `cellsText`.  Still missing for the full clause: the cells' own
+tokenizability from the handlers that build them (parts printed with nothing in between). -/
+theorem C11_columnize_retokenizes_partial (blocks : List Block) (iw ic : Nat) (b : Block)
+    (hb : b ∈ blocks) (Ls : List (List Leaf))
+    (hcell : ∀ x ∈ colCells blocks iw ic b.header 0 b.header.columns Ls,
+      (x.1 = [] ∧ x.2.2 = []) ∨ (x.1 ≠ [] ∧ LineToks x.1 x.2.2))
+    (hopen : OpenLast (colCells blocks iw ic b.header 0 b.header.columns Ls))
+    (hfirst : ∃ c rest, b.header.columns = c :: rest ∧ c ≠ []) :
+    ∃ hdr : Row, columnizeBlock blocks iw ic b = b.pre ++ [hdr] ++ b.body ∧
+      hdr.columns.length < 2 ∧ hdr.indent = b.header.indent ∧ hdr.name = b.header.name ∧
+      LineToks (rowText hdr) (cellsLeaves (colCells blocks iw ic b.header 0 b.header.columns Ls)) :=
+  columnize_header_lineToks blocks iw ic b hb Ls hcell hopen hfirst
+
+/-! Non-vacuity (test on literals): a field header `0` / `[+1]` / `UInt` / `x` in a block
+list of one; the cells tokenize (kernel-evaluated tokenizer model), so the columnized row
+`0  [+1]  UInt  x` does. -/
+example : ∃ hdr : Row, columnizeBlock [exBlock] 2 2 exBlock = [] ++ [hdr] ++ [] ∧
+    hdr.columns.length < 2 ∧ hdr.indent = 0 ∧ hdr.name = .field ∧
+    LineToks (rowText hdr) (cellsLeaves (colCells [exBlock] 2 2 exBlock.header 0 exBlock.header.columns exCellLeaves)) :=
+  C11_columnize_retokenizes_partial [exBlock] 2 2 exBlock (by simp) exCellLeaves exBlock_cells
+    exBlock_open ⟨_, _, rfl, by decide⟩
 
 /-- **One rendered row re-tokenizes to its cells' tokens, partial.**
 (1) Two texts that tokenize to `La` and `Lb`, the first without a comment / documentation
